@@ -60,6 +60,23 @@ mod imp {
         }
     }
 
+    /// `poke(sid)`: a custom action that uses the executor of its session (sends event "poked" to session sid)
+    #[derive(Clone)]
+    struct PokeAction {}
+
+    impl rufsm::actions::Action for PokeAction {
+        fn execute(&self, arguments: &[rufsm::datamodel::Data], global: &rufsm::fsm::GlobalData) -> Result<rufsm::datamodel::Data, String> {
+            let sid: u32 = arguments.first().map(|a| a.to_string()).unwrap_or_default().parse().unwrap_or(0);
+            if let Some(ex) = &global.executor {
+                let _ = ex.send_to_session(sid, Event::new_simple("poked"));
+            }
+            Ok(rufsm::datamodel::Data::Boolean(true))
+        }
+        fn get_copy(&self) -> Box<dyn rufsm::actions::Action> {
+            Box::new(self.clone())
+        }
+    }
+
     /// starts a session whose documents (and invoked children) can call notify(..)
     fn start_n(executor: &FsmExecutor, xml: &str, log: &Arc<RunLog>, tx: &verif_sync::mpsc::Sender<String>) -> ScxmlSession {
         let g = globals();
@@ -1415,6 +1432,105 @@ mod imp {
                     Ok("ok".into())
                 }),
             });
+            // an INVOKED session addresses a session that is not its parent (#_scxml_<id> of a sibling): the event
+            // carries the sender's invoke id, the receiver must still get it
+            v.push(Scenario {
+                name: "invoked-child-sends-to-sibling",
+                quick_bound: 0,
+                thorough_bound: 1,
+                atomics: false,
+                body: Box::new(move |log, notes| {
+                    Box::new(move || {
+                        let ex = FsmExecutor::new_without_io_processor();
+                        let (tx, rx) = verif_sync::mpsc::channel::<String>();
+                        let rcv = format!(
+                            r##"<scxml {ns} name="rcv"><state id="s"><transition event="*"><script>mark('rx', _sessionid, _event.name, _event.sendid, _event.origintype); notify('got-' + _event.name)</script></transition></state></scxml>"##,
+                            ns = NS
+                        );
+                        let sib = start_n(&ex, &rcv, &log, &tx);
+                        let par = format!(
+                            r##"<scxml {ns} name="par"><state id="a"><invoke id="kid"><content><scxml xmlns="http://www.w3.org/2005/07/scxml" version="1.0" datamodel="rfsm-expression" name="kid"><state id="k">
+<onentry><send event="k2s" id="ks1" target="#_scxml_{sib}"/><send event="k2p" target="#_parent"/></onentry></state></scxml></content></invoke>
+<transition event="k2p"><send event="p2s" target="#_scxml_{sib}"/></transition></state></scxml>"##,
+                            ns = NS,
+                            sib = sib.session_id
+                        );
+                        let p = start_n(&ex, &par, &log, &tx);
+                        notes.lock().unwrap().push(format!("sib={}", sib.session_id));
+                        // the parent's event is sent after the child's (it reacts to k2p): when it has arrived, k2s
+                        // has been enqueued (or dropped) before
+                        wait_for(&rx, &["got-p2s"]);
+                        cancel_and_join(p);
+                        cancel_and_join(sib);
+                    })
+                }),
+                oracle: Box::new(|o: &Obs| {
+                    basic_outcome(o)?;
+                    let note = o.notes.first().cloned().unwrap_or_default();
+                    let sib = note.trim_start_matches("sib=").to_string();
+                    let mut got: Vec<(String, String)> = o
+                        .recs
+                        .iter()
+                        .filter_map(|(_, r)| match r {
+                            Rec::Mark { args, .. } if args.first().map(|x| x == "rx").unwrap_or(false) && args[2] != fsm::EVENT_CANCEL_SESSION => Some((args[1].clone(), args[2].clone())),
+                            _ => None,
+                        })
+                        .collect();
+                    got.sort();
+                    let exp = vec![(sib.clone(), "k2s".to_string()), (sib.clone(), "p2s".to_string())];
+                    if got != exp {
+                        return Err(("routing-from-invoked-session".into(), format!("session {} was addressed by the invoked child (k2s) and by the parent (p2s); (session, event) received: {:?}", sib, got)));
+                    }
+                    Ok("ok".into())
+                }),
+            });
+            // a top-level session started through the executor API (FsmExecutor::execute* gives it the caller invoke
+            // id "") addresses its own child with #_<invokeid>
+            v.push(Scenario {
+                name: "executor-started-parent-sends-to-child",
+                quick_bound: 0,
+                thorough_bound: 1,
+                atomics: false,
+                body: Box::new(move |log, _notes| {
+                    Box::new(move || {
+                        let g = globals();
+                        let _ = &log;
+                        let mut ex = FsmExecutor::new_without_io_processor();
+                        let (tx, rx) = verif_sync::mpsc::channel::<String>();
+                        let par = format!(
+                            r##"<scxml {ns} name="par"><state id="a"><invoke id="kid"><content><scxml xmlns="http://www.w3.org/2005/07/scxml" version="1.0" datamodel="rfsm-expression" name="kid"><state id="k">
+<onentry><send event="k2p" target="#_parent"/></onentry><transition event="ping"><script>mark('rx', 'kid', _event.name)</script><send event="pong" target="#_parent"/></transition></state></scxml></content></invoke>
+<transition event="k2p"><send event="ping" target="#_kid"/></transition>
+<transition event="pong"><script>mark('rx', 'par', _event.name); notify('pong')</script></transition>
+<transition event="error"><script>mark('rx', 'par', _event.name); notify('pong')</script></transition></state></scxml>"##,
+                            ns = NS
+                        );
+                        let mut actions = ActionWrapper::new();
+                        actions.add_action("mark", Box::new(MarkAction { current: g.current.clone() }));
+                        actions.add_action("notify", Box::new(NotifyAction { tx: Arc::new(Mutex::new(tx.clone())) }));
+                        let sess = ex
+                            .execute_with_data_from_xml(&par, actions, &[], None, &"".to_string(), FinishMode::KEEP_CONFIGURATION, rufsm::tracer::TraceMode::ALL)
+                            .expect("harness document must parse");
+                        wait_for(&rx, &["pong"]);
+                        cancel_and_join(sess);
+                    })
+                }),
+                oracle: Box::new(|o: &Obs| {
+                    basic_outcome(o)?;
+                    let got: Vec<(String, String)> = o
+                        .recs
+                        .iter()
+                        .filter_map(|(_, r)| match r {
+                            Rec::Mark { args, .. } if args.first().map(|x| x == "rx").unwrap_or(false) => Some((args[1].clone(), args[2].clone())),
+                            _ => None,
+                        })
+                        .collect();
+                    if got != vec![("kid".to_string(), "ping".to_string()), ("par".to_string(), "pong".to_string())] {
+                        return Err(("routing-to-child-of-executor-started-session".into(), format!("the parent sent 'ping' to #_kid and expects 'pong'; received (session, event): {:?}", got)));
+                    }
+                    Ok("ok".into())
+                }),
+            });
             let sd = sib_doc.clone();
             v.push(Scenario {
                 name: "routing-parent-child-sibling",
@@ -1649,6 +1765,81 @@ mod imp {
                         let _ = s2.sender.send(Box::new(Event::new_simple("go")));
                         cancel_and_join(s1);
                         cancel_and_join(s2);
+                    })
+                }),
+                oracle: Box::new(|o: &Obs| {
+                    basic_outcome(o)?;
+                    Ok("finished".into())
+                }),
+            });
+            // (f) a custom action that uses the executor (actions run with the session's global data locked) while
+            // a peer session sends an event to that session
+            v.push(Scenario {
+                name: "action-uses-executor-while-peer-sends",
+                quick_bound: 1,
+                thorough_bound: 2,
+                atomics: false,
+                body: Box::new(move |log, _notes| {
+                    Box::new(move || {
+                        let ex = FsmExecutor::new_without_io_processor();
+                        let g = globals();
+                        let start_p = |xml: &str| -> ScxmlSession {
+                            let mut fsm = parse(xml).expect("harness document must parse");
+                            fsm.tracer = Box::new(Recorder::new(log.clone()));
+                            let mut actions = ActionWrapper::new();
+                            actions.add_action("mark", Box::new(MarkAction { current: g.current.clone() }));
+                            actions.add_action("poke", Box::new(PokeAction {}));
+                            fsm::start_fsm_with_data_and_finish_mode(fsm, actions, Box::new(ex.clone()), &[], FinishMode::KEEP_CONFIGURATION)
+                        };
+                        let doc = format!(
+                            r##"<scxml {ns} name="act"><datamodel><data id="peer" expr="0"/></datamodel><state id="a">
+<transition event="peer"><assign location="peer" expr="_event.data.id"/></transition>
+<transition event="work"><script>poke(peer)</script></transition>
+<transition event="go"><send event="hello" targetexpr="'#_scxml_' + peer"/></transition>
+<transition event="hello poked"><script>mark('got', _event.name)</script></transition></state></scxml>"##,
+                            ns = NS
+                        );
+                        let s1 = start_p(&doc);
+                        let s2 = start_p(&doc);
+                        let mk = |id: u32| {
+                            let mut e = Event::new_simple("peer");
+                            e.param_values = Some(vec![rufsm::fsm::ParamPair::new("id", &rufsm::datamodel::Data::Integer(id as i64))]);
+                            e
+                        };
+                        let _ = s1.sender.send(Box::new(mk(s2.session_id)));
+                        let _ = s2.sender.send(Box::new(mk(s1.session_id)));
+                        // s1 runs the action (global data locked, wants the executor), s2 sends to s1
+                        let _ = s1.sender.send(Box::new(Event::new_simple("work")));
+                        let _ = s2.sender.send(Box::new(Event::new_simple("go")));
+                        cancel_and_join(s1);
+                        cancel_and_join(s2);
+                    })
+                }),
+                oracle: Box::new(|o: &Obs| {
+                    basic_outcome(o)?;
+                    Ok("finished".into())
+                }),
+            });
+            // (g) the parent sends to its child while the child session is still starting up
+            v.push(Scenario {
+                name: "send-to-child-during-its-startup",
+                quick_bound: 1,
+                thorough_bound: 2,
+                atomics: false,
+                body: Box::new(move |log, _notes| {
+                    Box::new(move || {
+                        let ex = FsmExecutor::new_without_io_processor();
+                        let doc = format!(
+                            r##"<scxml {ns} name="par"><state id="a"><transition event="go" target="b"/></state>
+<state id="b"><invoke id="kid"><content><scxml xmlns="http://www.w3.org/2005/07/scxml" version="1.0" datamodel="rfsm-expression"><state id="k"><onentry><send event="fromkid" target="#_parent"/></onentry><transition event="x"><send event="answer" target="#_parent"/></transition></state></scxml></content></invoke>
+<transition event="go2"><send event="x" target="#_kid"/></transition>
+<transition event="fromkid answer error"><script>mark('got', _event.name)</script></transition></state></scxml>"##,
+                            ns = NS
+                        );
+                        let sess = start(&ex, &doc, &log);
+                        let _ = sess.sender.send(Box::new(Event::new_simple("go")));
+                        let _ = sess.sender.send(Box::new(Event::new_simple("go2")));
+                        cancel_and_join(sess);
                     })
                 }),
                 oracle: Box::new(|o: &Obs| {
